@@ -442,8 +442,7 @@ func checkC03(c *core.Ctx) {
 				return
 			}
 			n33++
-			after := core.ForwardSearch(fn, ins, func(i ssa.Instruction) bool {
-				cc := core.CallCommonOf(i)
+			isEffect := func(cc *ssa.CallCommon) bool {
 				if cc == nil || !cc.IsInvoke() || !core.NamedIs(cc.Value.Type(), "PacketBuilder") {
 					return false
 				}
@@ -452,6 +451,33 @@ func checkC03(c *core.Ctx) {
 					return true
 				}
 				return false
+			}
+			// a deferred builder effect runs at the function's exit, i.e. after the chaining call
+			deferred := false
+			core.Instrs(fn, func(i ssa.Instruction) {
+				if d, ok := i.(*ssa.Defer); ok {
+					if isEffect(&d.Call) {
+						deferred = true
+					}
+					if cl, ok := d.Call.Value.(*ssa.MakeClosure); ok {
+						if f, ok := cl.Fn.(*ssa.Function); ok {
+							core.Instrs(f, func(j ssa.Instruction) {
+								if isEffect(core.CallCommonOf(j)) {
+									deferred = true
+								}
+							})
+						}
+					}
+				}
+			})
+			after := core.ForwardSearch(fn, ins, func(i ssa.Instruction) bool {
+				if _, ok := i.(*ssa.RunDefers); ok && deferred {
+					return true
+				}
+				if _, ok := i.(*ssa.Defer); ok {
+					return false
+				}
+				return isEffect(core.CallCommonOf(i))
 			}, nil)
 			r33.Check(after == nil, core.FnKey(fn)+"/after-NextDecoder", p.InstrPos(ins), "no builder effect after chaining", "a PacketBuilder effect follows NextDecoder: layer order differs between eager (already recursed) and lazy (only stored)")
 		})
